@@ -395,6 +395,8 @@ def plant_fillomino(rng):
                 break
         if not merged:
             break
+    if max(len(rm) for rm in rooms) > 8:
+        return None  # blocks of 10+ cells make the real encoding take minutes in z3; not what this stage is for
     size = {c: len(rm) for rm in rooms for c in rm}
     p = [[(size[(y, x)] if rng.random() < 0.45 else 0) for x in range(w)] for y in range(h)]
     bid = {c: k for k, rm in enumerate(rooms) for c in rm}
